@@ -204,7 +204,8 @@ structure ChainRuleEnv (fn : String → α → α) (ρ : Env α) (dim : Nat) (ph
   var2 : ∀ v I r c, physIn.contains v = false → r < dim → c < dim → ρ.var v I (unit2D dim r c) true
       = ∑ n ∈ range dim, (∑ m ∈ range dim, J m r * ρ.var v I (unit2D dim m n) false) * J n c
         + ∑ m ∈ range dim, ρ.var v I (unitD dim m) false * ρ.var "geo_a" [m] (unit2D dim r c) true
-  ght : ∀ k i j, ρ.var (geoHessTrfName k i j) [] (zerosD dim) false = ev (fieldOps fn) ρ (geoHessTrfDef dim k i j) 0 0
+  ght : ∀ k i j, k < dim → i < dim → j < dim →
+    ρ.var (geoHessTrfName k i j) [] (zerosD dim) false = ev (fieldOps fn) ρ (geoHessTrfDef dim k i j) 0 0
 
 /-- one `PartialDerivExpr` node -/
 theorem replacePhysBf_node (fn : String → α → α) (ρ : Env α) (dim : Nat) (physIn : List String) (J : Nat → Nat → α)
@@ -253,7 +254,7 @@ theorem replacePhysBf_node (fn : String → α → α) (ρ : Env α) (dim : Nat)
             (fun m => ρ.bf b (unitD dim m) true) i' j' hi hj hE.hinv
             (fun r hr => by simpa [bfAtom, ev] using hE.bf1 b r hr)
             (fun r c hr hc => by simpa [bfAtom, ev] using hE.bf2 b r c hr hc)
-            (fun k _ => hE.ght k i' j')
+            (fun k hk => hE.ght k i' j' hk hi hj)
           refine ⟨fun i j => ?_, ?_⟩
           · simp only [Option.getD_some]
             rw [scalar_ev _ _ _ (scalarCls_physToPara2G dim _ i' j'), hs]
@@ -314,7 +315,7 @@ theorem replacePhysVar_node (fn : String → α → α) (ρ : Env α) (dim : Nat
               (fun m => ρ.var v I (unitD dim m) false) i' j' hi hj hE.hinv
               (fun r hr => by simpa [varAtom, ev] using hE.var1 v I r hphys' hr)
               (fun r c hr hc => by simpa [varAtom, ev] using hE.var2 v I r c hphys' hr hc)
-              (fun k _ => hE.ght k i' j')
+              (fun k hk => hE.ght k i' j' hk hi hj)
             refine ⟨fun i j => ?_, ?_⟩
             · simp only [Option.getD_some]
               rw [scalar_ev _ _ _ (scalarCls_physToPara2G dim _ i' j'), hs]
